@@ -78,6 +78,29 @@ func (w *World) execEventOp(ctx context.Context, toks []string) (bool, error) {
 				ew.mu.Unlock()
 			}
 		}()
+	case "evspin":
+		// evspin p n : n goroutines keep reading p's view (they hold the view's read lock most of the
+		// time): a write must still be in the view before its event goes out
+		p, n := atoi(toks[1]), atoi(toks[2])
+		s := w.stores[p]
+		if w.spinStop == nil {
+			w.spinStop = make(chan struct{})
+		}
+		stop := w.spinStop
+		for i := 0; i < n; i++ {
+			w.spinWG.Add(1)
+			go func() {
+				defer w.spinWG.Done()
+				for {
+					select {
+					case <-stop:
+						return
+					default:
+					}
+					_ = w.idxString(s)
+				}
+			}()
+		}
 	case "evflush":
 		p := atoi(toks[1])
 		ew := w.evw[p]
